@@ -4,6 +4,7 @@
 # Output: one line per (seed, property): CAUGHT / missed / INCONCLUSIVE.
 BASE=$(cd "$(dirname "$0")" && pwd)
 REPO=${VERIF_REPO:?set VERIF_REPO to a scratch checkout}
+mkdir -p "$BASE/.work"
 PROPS=${PROPS:-C01 C02 C03 C04 C05 C06 C07 C08 C09 C10 C11 C12 C13 C14 C15 C16 C17 C18 C19 C20}
 for d in "$BASE"/seeded/S*/; do
   s=$(basename "$d")
